@@ -917,6 +917,8 @@ func (in *Interp) eval0(st *State, e ast.Expr) *T {
 		return &T{Op: "assert", Name: types.ExprString(x.Type), Args: []*T{a}}
 	case *ast.KeyValueExpr:
 		return &T{Op: "kv", Name: types.ExprString(x.Key), Args: []*T{in.eval(st, x.Value)}}
+	case *ast.ArrayType, *ast.MapType, *ast.FuncType, *ast.StructType, *ast.InterfaceType, *ast.ChanType:
+		return tConst("type:" + types.ExprString(e))
 	}
 	return tOpaque(fmt.Sprintf("%T@%s", e, in.C.Pos(e)))
 }
